@@ -3,9 +3,9 @@ package main
 // Round-6 rules: the small helpers, constructors and geometry functions the larger rules take for granted.
 
 import (
-	"os"
 	"fmt"
 	"go/types"
+	"os"
 	"strings"
 
 	"golang.org/x/tools/go/ssa"
@@ -59,6 +59,14 @@ func ruleC16Geometry(cx *Ctx) {
 			// the slice may render without the explicit load
 			l2 := mk("builtin:len", mk(dataField, p1))
 			want = mk("+", mk("*", tConst(2), mk("-", l2, tConst(1))), tConst(1)).String()
+		}
+		if got != want {
+			// 2*(len-1) is even: "| 1" sets the same bit "+ 1" does
+			for _, l := range []*Term{mk("builtin:len", mk(dataField, mk("load", p1))), mk("builtin:len", mk(dataField, p1))} {
+				if got == mk("|", mk("*", tConst(2), mk("-", l, tConst(1))), tConst(1)).String() {
+					want = got
+				}
+			}
 		}
 		cx.R.Check(got == want, rule, "queue.(*MPSC).getNextBufferSize", "next chunk has 2*(len-1)+1 slots", cx.P.Pos(g.Pos()), "found "+trunc(got, 100))
 	}
@@ -1449,7 +1457,9 @@ func ruleC08Wait(cx *Ctx) {
 		return
 	}
 	if w := cx.need(rule, "", "call", "wait"); w != nil {
-		isWait := func(in ssa.Instruction) bool { return isStdMethod(in, "sync", "WaitGroup", "Wait") && sameField(recvField(in), wgF) }
+		isWait := func(in ssa.Instruction) bool {
+			return isStdMethod(in, "sync", "WaitGroup", "Wait") && sameField(recvField(in), wgF)
+		}
 		ok, wit := MustFollowPt(Pt{w.Blocks[0], 0}, isWait, exitReturn, nil)
 		cx.R.Check(ok, rule, funcName(w), "waits on every path", cx.P.Pos(w.Pos()), "every returning path of wait passed wg.Wait()", wit...)
 	}
@@ -1812,7 +1822,7 @@ func ruleC17DrainAll(cx *Ctx) {
 						if _, first, bound, okI := indexInduction(ia.Index); okI && first == 0 && bound != nil && (sameField(fieldOf(bound), lenF) || isTableLen(bound)) {
 							okG := true
 							for _, g := range guardsAt(y.Block()) {
-								if xv, _, isNil := nilCmp(g.Cond); isNil && (xv == ssa.Value(ld) || paramIndexOf(xv) == 0) {
+								if xv, _, isNil := nilCmp(g.Cond); isNil && (xv == ssa.Value(ld) || paramIndexOf(xv) == 0 || isTable(xv)) {
 									continue
 								}
 								if b, isB := g.Cond.(*ssa.BinOp); isB && (b.X == ia.Index || b.Y == ia.Index || isTableLen(b.X) || isTableLen(b.Y)) {
